@@ -9,34 +9,55 @@ GENERATED = []
 SOURCES = ["src/allmydata/mutable/servermap.py", "src/allmydata/mutable/retrieve.py", "src/allmydata/mutable/layout.py",
            "src/allmydata/mutable/filenode.py", "src/allmydata/uri.py"]
 DESIGN_REF = "DESIGN.md §2 C10"
-TECHNIQUE = ("Lean 4 theorems over a symbolic-crypto model of the reader's share acceptance (fingerprint, signature, hash chain) and a "
-             "Dolev-Yao closure for who can sign, plus an invariant proof over the share hash tree of a whole Retrieve (the signed root "
-             "survives every rejected share); field-level accept/reject table compared with real single-share reads; the real "
-             "Retrieve._validate_block/_handle_bad_share driven event by event against the tree model; corruption, rollback, "
-             "substitution and mutually-consistent-forgery campaigns on real mutable shares on the in-process grid with a "
-             "'published versions only' monitor")
-LEVEL_TEXT = ("Proved (with unforgeability, collision-freeness and Merkle binding as explicit hypotheses, satisfiable by a symbolic "
-              "instance): any share the reader accepts carries the signed prefix and the blocks of a version the key holder published; "
-              "within one Retrieve every validated block set hashes to the signed root whatever shares were rejected before; "
-              "intact shares are accepted; nothing signed by the file's key on an unpublished prefix, nor the signing or write key, is "
-              "derivable from what read-cap / verify-cap holders and servers see. Tied to the code by the field-level decision table "
-              "(one altered field of a single share, cold and warm node) and by tampering campaigns. Partial: computational soundness of "
-              "RSA/SHA-256 is assumed; the servermap/retrieve plumbing is exercised, not modelled.")
-LEVEL_NOTE = ("Lean kernel + standard axioms; cryptographic assumptions are hypotheses of the theorems; model hand-written; real code "
-              "run on harness/grid.py.")
-RULE = ("(a) single-share files (k=1) with exactly one field altered, read by a cold or warm read-cap node: accept/reject compared with the "
-        "driver; (b) k-of-N files with 3 published versions and a random set of shares flipped / truncated / rolled back / replaced by another "
-        "file's share / deleted, read by a fresh read-cap node; (c) k-of-N files with j in {k-1,k,k+1,N} shares replaced by mutually "
-        "consistent forgeries (genuine signed prefix, signature and key; block data, block hash tree and share hash chain of another "
-        "plaintext encoded with the same parameters) plus 0/1 plainly damaged share, SDMF and multi-segment MDMF, delivery policies "
-        "random/fifo/lifo; (d) event sequences (consistent share of family f / damaged share / other failure) on a real Retrieve's "
-        "_validate_block + _handle_bad_share compared with the tree model. A case is one read or one event sequence; distinct = "
-        "distinct (format, tamper set) or event text; non-trivial = at least one share was tampered with / a share was rejected "
+TECHNIQUE = ("Lean 4 theorems (25) over a symbolic-crypto model of a mutable-file reader: per-share acceptance (fingerprint, signature, "
+             "hash chain), the map update's signature cache, which share fields the signature covers, the share hash tree of a whole "
+             "Retrieve (invariant: the signed root survives every rejected share; a leaf must be connected to it), the salt handed to the "
+             "decryptor, version selection (best_recoverable_version with the offsets inside the version identity), the Retrieve "
+             "share-selection loop and download_best_version's one retry, and a Dolev-Yao closure for who can sign. Every model part is "
+             "compared with the real code through the driver: single-share field decisions, ServermapUpdater._got_signature_one_share with "
+             "real RSA signatures, Retrieve._validate_block/_handle_bad_share/_activate_enough_servers/_decode_blocks driven event by event, "
+             "ServerMap.best_recoverable_version, offsets tuples of real verinfos, header fields against the real layout. Tampering "
+             "campaigns on real shares on the in-process grid (fixed corpus first, then seeded families) with a 'published versions only, "
+             "success when k intact newest shares are reachable' monitor")
+LEVEL_TEXT = ("Proved (unforgeability, fingerprint and hash collision-freeness and Merkle binding are explicit hypotheses, satisfiable by a "
+              "symbolic instance): accepted_version_published, installed_key_genuine (an accepted share carries the prefix and blocks of a "
+              "published version); map_update_enters_only_verified_prefixes (signature cache); version_identity_signed_except_offsets; "
+              "signed_root_never_reset, accepted_blocks_hash_to_signed_root, retrieve_validates_only_published_blocks (a whole Retrieve, any "
+              "sequence of rejected shares); decrypt_salt_is_signed; intact_share_accepted; best_is_maximal_recoverable; "
+              "canonical_offsets_same_identity; readcap_cannot_publish. Liveness is proved under guards only: "
+              "retrieve_succeeds_with_k_intact_partial, readOnce_succeeds_partial, read_succeeds_with_k_intact_newest_partial (guards: "
+              "bad-share handling drops only the share -- the code since /repo 280b4a6 -- or one share per server; no recoverable version "
+              "identity sorts above the newest published one). The last guard is false for the code as it is: offset_table_counterexample "
+              "is the open KNOWN-FINDING (unsigned offsets table inside the version identity). Counterexample theorems document the past "
+              "defects and seeded variants (reset_variant, surplus_variant, coarse_cache_key, fresh_reader, drop_server, "
+              "insertion_order_offsets). Correspondence/monitor only: which bytes of the two hash-chain fields a read consults, which "
+              "servers the partial MODE_READ survey asks, decoding of k validated block sets (C36/C09). Assumed: computational soundness of "
+              "RSA/SHA-256d.")
+LEVEL_NOTE = ("Lean kernel + standard axioms (propext, Classical.choice, Quot.sound); cryptographic assumptions are hypotheses of the "
+              "theorems; models hand-written from servermap.py / retrieve.py / layout.py / filenode.py and tied to them by the driver "
+              "comparisons; real code run on harness/grid.py. One open finding (offset table altered => separate version identity); the "
+              "defects found here and repaired in /repo (280b4a6 bad share dropped its server's other shares, 80fa722 offsets tuple order, "
+              "492e568 read-only retry survey) are fixed corpus cases.")
+RULE = ("Fixed corpus (runs first, alone under VERIF_CORPUS_ONLY=1): offset-table corpus; one version under two verinfos (histories A/B); "
+        "share hash chain rewritten in place; tampering between two reads through one version object; minimal instances of the "
+        "prefix-alteration, consistent-forgery, damaged-share-among-few-servers, shared-server families; Retrieve tree / loop / signature "
+        "cache corpora; header fields. Seeded families: (a) single-share files with exactly one field altered, cold or warm node, "
+        "accept/reject compared with the driver; (b) k-of-N files, 3 versions, random shares flipped / truncated / rolled back / foreign / "
+        "deleted; (c) j in {k-1,k,k+1,N} mutually consistent forgeries plus 0/1 damaged share; (d) signed datalength altered next to intact "
+        "shares; (e) sibling shares with forged blocks and a chain that stops below the root; (f) several shares per server with damaged "
+        "ones; (g) shares altered between two reads through one version object; (h) event sequences on a real Retrieve "
+        "(_validate_block/_handle_bad_share), real Retrieve selection loops, real ServerMap version maps, real signature-cache sequences, "
+        "compared with the model. SDMF and multi-segment MDMF, delivery policies random/fifo/lifo. A case is one read or one event "
+        "sequence; distinct = distinct (format, tamper set) or event text; non-trivial = at least one share was tampered with / rejected "
         "before the last event.")
-TRUSTED = ["harness/grid.py", "the share-field map and the share forger in this module (written from mutable/layout.py and publish.py)",
-           "DEFAULT_MUTABLE_MAX_SEGMENT_SIZE is lowered while forged-share files are published (configuration, gives MDMF several segments)"]
-ASSUMPTIONS = ["RSA signatures are unforgeable; SHA-256d tagged hashes are collision-free (hypotheses of the theorems)",
-               "the adversary acts through stored share bytes only (servers answer every request)"]
+TRUSTED = ["harness/grid.py", "the share-field map and the share forgers in this module (written from mutable/layout.py and publish.py)",
+           "DEFAULT_MUTABLE_MAX_SEGMENT_SIZE is lowered while test files are published (configuration, gives MDMF several segments)",
+           "stub node/server objects around the real Retrieve / ServermapUpdater in the event-by-event comparisons"]
+ASSUMPTIONS = ["RSA signatures are unforgeable; fingerprints and SHA-256d tagged hashes are collision-free; the share hash tree binds "
+               "(hypotheses of the theorems, World structure)",
+               "the adversary acts through stored share bytes only (servers answer every request)",
+               "liveness theorems: no recoverable version identity sorts above the newest published version's (broken by the open "
+               "offset-table finding), the first survey finds some recoverable version, one server per share number of a version"]
 
 DATA_OFFSET = 468
 
